@@ -12,6 +12,7 @@ from checks.enginelib import charts, shrink
 
 THEOREMS = [
     ("UscxmlVerif.Properties.C01.selection_conflict_free_w3c_of_document", "proved", "PARTIAL (pre-emption), with no hypothesis left about the chart: for EVERY well-formed document (root <scxml>, only scxml/state/parallel elements have state-like children, no scxml child), every configuration of real states, every event and every outcome of the conditions, the transitions of real states with real targets that LargeMicroStep selects have pairwise disjoint Appendix D exit sets"),
+    ("UscxmlVerif.Properties.C01.exit_set_is_appendix_d_of_document", "proved", "PARTIAL (exit set): for every well-formed document, every configuration of real states, event and condition outcome, the set of states LargeMicroStep is going to exit equals Appendix D's computeExitSet of the transitions it selected (transitions of real states with real targets); the order of exiting and the handlers are not covered"),
     ("UscxmlVerif.Proofs.Subtree.intervalOK_flatten", "proved", "pre-order numbering of flatten: in the flat chart of every well-formed document the descendants of a proper state are exactly the interval after it up to what nextStateAfter finds (resortStates puts the pseudo-states first, so the next proper sibling is the next sibling)"),
     ("UscxmlVerif.Proofs.Subtree.desc_interval", "proved", "a state is a descendant of j iff its number lies in j's block (j, j + size of j's subtree)"),
     ("UscxmlVerif.Proofs.Flatten.coherent_flatten", "proved", "flatten of a well-formed document is coherent"),
@@ -21,7 +22,7 @@ THEOREMS = [
     ("UscxmlVerif.Properties.C01.selection_conflict_free_partial", "proved", "PARTIAL (pre-emption only): for every chart, configuration, event and condition outcome the set of transitions LargeMicroStep selects holds no two distinct transitions with overlapping exit-set intervals. That the step as a whole is Appendix D's is decided by exploration (I = M = S on generated charts)"),
 ]
 FINISH = {"level": "exploration"}   # the refinement Large ⊑ Appendix D is not proved
-LEAN_FILES = ["UscxmlVerif.Properties.C01", "UscxmlVerif.Proofs.Select", "UscxmlVerif.Proofs.Interval", "UscxmlVerif.Proofs.Struct", "UscxmlVerif.Proofs.Flatten", "UscxmlVerif.Proofs.Subtree"]
+LEAN_FILES = ["UscxmlVerif.Properties.C01", "UscxmlVerif.Proofs.Select", "UscxmlVerif.Proofs.Interval", "UscxmlVerif.Proofs.Struct", "UscxmlVerif.Proofs.Flatten", "UscxmlVerif.Proofs.Subtree", "UscxmlVerif.Proofs.ExitSet"]
 SUITE = "trace-large"
 
 
